@@ -10,6 +10,9 @@ structure Obs where
   steps : List (Nat × String) := []   -- completion time, op
   evs : List Ev := []
   sigs : List Nat := []               -- receive times
+  errs : List Nat := []               -- watcher errors injected at these times
+  closedAt : Option Nat := none       -- the consumer saw the signal channel closed
+  flood : Bool := false
 
 def parseKV (key w : String) : Option String :=
   if w.startsWith (key ++ "=") then some (w.drop (key.length + 1)).toString else none
@@ -29,6 +32,12 @@ def parseTok (o : Obs) (w : String) : Option Obs :=
   else if w.startsWith "S" then
     match parts with
     | [t, _] => do pure { o with sigs := o.sigs ++ [← t.toNat?] }
+    | _ => none
+  else if w == "F" then some { o with flood := true }
+  else if w.startsWith "X" then do pure { o with errs := o.errs ++ [← body.toNat?] }
+  else if w.startsWith "C" then
+    match parts with
+    | [t, _] => do pure { o with closedAt := some (← t.toNat?) }
     | _ => none
   else none
 
@@ -51,6 +60,12 @@ def summary (loaded : Bool) (nsig : Nat) : String := s!"loaded={b01 loaded} nsig
 
 /-- the relational tie (see Model): `none` = the automaton's rules explain the observation -/
 def unexplained (o : Obs) : Option String :=
+  -- model: any watcher error wakes the consumer (closed channel, or at least a signal after it);
+  -- the events logged by the second watcher around an overflow were not all delivered: nothing else is checked
+  if let some tx := o.errs.head? then
+    (if o.closedAt.isSome || o.sigs.any (fun g => tx ≤ g + tieSlack) then none
+     else some "a watcher error did not wake the consumer")
+  else
   let chs := changeTimes o.c0 o.evs
   if !allLegit chs none o.sigs then some "a signal is neither an immediate nor a trailing report allowed by the loop's rules"
   else if !promptlyReported o.c0 o.evs o.sigs then some "a change was not reported within minInterval+additionalWait"
@@ -67,7 +82,7 @@ def step (_ : Unit) (op impl : String) : Unit × DrvOut :=
       -- only the loop with the trailing-edge timer (/repo 65048a4) is modelled; after the consumer has
       -- gone nothing more is observed: no prediction
       let model :=
-        if o.quit || !o.closed then "-"
+        if o.quit || !o.closed || o.flood then "-"
         else match unexplained o with
           | none => mine ++ " " ++ tail
           | some why => "unexplained: " ++ why
@@ -79,7 +94,9 @@ def step (_ : Unit) (op impl : String) : Unit × DrvOut :=
           match changes.getLast? with
           | none => "FAIL the consumer's last load differs from the final content although nothing changed"
           | some lc =>
-            if inDropWindow lc o.sigs then
+            if !o.errs.isEmpty then
+              s!"FAIL the change finished at {lc} ms was never loaded: its event was dropped (queue overflow) and the watcher error did not wake the consumer"
+            else if inDropWindow lc o.sigs then
               s!"FAIL the change finished at {lc} ms was never reported: it fell into the 1 s window after a signal (regression of the trailing-edge timer, former finding dropWindow)"
             else s!"FAIL the change finished at {lc} ms was never reported although no signal preceded it by less than 1 s"
       ((), { model := model, spec := spec })
